@@ -23,14 +23,15 @@ from core import Exn, call, cstr, cbool, clist
 from reqgen import KINDS, KIND_ORDER, BINDINGS, NOW, cfgspec, rspec
 
 CLAIM = {
-    "text": "Coq theorems (Props/C10.v, 22, all closed) over an executable model of Entity._parse_request (receiver addresses per service/binding/context with the aa/aq/pdp fallback and the odd-endpoint-spec branch of Config.endpoint, accepted_time_diff, the section the want_* options are read from, must = want_authn_requests_signed or want_authn_requests_only_with_valid_cert), Entity.unravel per binding incl. the SOAP envelope reader, Request._loads (every non-TypeError exception of the signature check ends in IncorrectlySigned; valid_instance), SecurityContext.correctly_signed_message (root element test, unsigned-and-must, signed -> _check_signature: certificate selection of C03, per-certificate tool runs with the symbolic tool semantics of Model/Xmlsec.v, certificate validation) and Request._verify (Version, Destination, IssueInstant window). PROVED for every configuration, request kind, binding and received text, and for both states of the C01 pre-check (C10_handed_over_only_if_valid): a request is handed to the application only if the text is a clean encoding of it, its root element is the expected request type of that entry point, valid_instance passed, Version is 2.0, Destination is absent/empty or one of the receiver's own addresses for that service and binding (or the receiver has none), IssueInstant lies in [now-86400-slack, now+86400+slack), a signature child on the root verified (tool semantics, either duplicate-ID policy) under a candidate certificate of the issuer that also passed certificate validation - with only_use_keys_in_metadata (the default) a certificate the metadata holds for the issuer with use signing - and want_authn_requests_signed / only_with_valid_cert imply a signature is present; C10_own_options_honoured restates the last clause for the options CONFIGURED in the section of the entity's own type (idp or aa). These are theorems about the model of the library as repaired by three fix: commits in /repo: 0b54cc6b (F16: _check_signature insists on a verified signature whatever only_valid_cert says; C10_before_fix_refuted keeps the witness, C10_repair_keeps_the_rest shows nothing else changes) and dace676c (an attribute authority's own want_* options are read; C10_options_before_fix_refuted keeps the witness), and f6d4380b (the C01 enveloping pre-check; Model/Request.v PRECHECK_IN_FORCE = true, C10_code_state). PROVED for today's code state, WITH the enveloping pre-check of the C01 repair (pre = true): the verified signature is the root's only Signature child, refers to the root's ID and digests exactly the root without it (C10_signature_covers_request), hence every modification of a signed request is refused when the sender's keys signed nothing else (C10_tamper). For the library before f6d4380b (no pre-check) that half is REFUTED by a wrapping witness (C10_covers_refuted_without_precheck) and proved under the hypothesis that the pre-check predicate holds of the received document (C10_covers_partial, C10_tamper_partial). C10_table_is_documented: the entry-point table (method -> request class, msgtype, service, root tag accepted by <msgtype>_from_string, SOAP reader and its root tag, pass-through of the text and must), regenerated from the code by recording on every run, equals the table the model uses. The recorded table also says which of _loads / loads / _verify / verify / issue_instant_ok each request class resolves to a definition other than Request's own (none): there is ONE pipeline for all eight kinds. NO KIND-SPECIFIC EXCEPTION, proved over the kind parameter: the model's request document carries the kind-specific optional content of the root (d_opts: LogoutRequest NotOnOrAfter / Reason / SessionIndex, AuthnRequest Conditions / Subject / ForceAuthn / IsPassive / Scoping, the optional children of the queries and of ManageNameID / NameIDMapping requests, each dateTime with its value) and C10_blind_to_optional_content shows that for every kind, binding, configuration and text the outcome is unchanged when that content is replaced by any other; C10_no_kind_specific_exception is the refusal form of the full statement (stale / dated ahead / no instant, addressed elsewhere, unsigned-but-wanted, other version, schema-invalid, other root => handed over by no entry point, whatever it carries) and C10_future_not_on_or_after_does_not_excuse its instance for a NotOnOrAfter (or any other dateTime) ahead of now. LONG-LIVED RECEIVER, by induction over message sequences (C10_history, C10_history_handed_over_only_if_valid): whatever one receiver has handed over at any point of a sequence was handed over by _parse_request on that message alone, and ops1 ++ ops2 hands over what ops1 and ops2 do apart - earlier valid requests excuse nothing later. C10_undecodable_refused, C10_wrong_root_refused, C10_witness, C10_logout_witness (non-vacuity). Tie to the code: on every run the real entry points (8 parse_* methods on IdP / AA / SP entities plus Saml2Client.handle_logout_request) and the model are run on the same ~18 300 cases (every request kind WITH each optional attribute / child of that kind alone and combined - 58 option sets incl. NotOnOrAfter 1 s / 1 h / 2 d / 10 y ahead, now and past, Conditions windows open / wide / past / future / one-sided, SubjectConfirmationData windows - x Redirect / POST / SOAP x IssueInstant at +-(86400+allowance) -2..+2 s x Destination swapped with another own endpoint / foreign / near miss x Version x dropped ID x want / only_valid_cert with unsigned, signed, signed-and-stale, signed-and-misaddressed, wrong key, edited, stripped, on IdP, stand-alone AA, SP and through handle_logout_request, the valid request first and again last on each long-lived receiver; shuffled valid / refusable sequences with re-sent texts on one object per kind and binding; and: all 8 request kinds, Redirect/POST/SOAP and the odd bindings, signed/unsigned/wrong key x want_authn_requests_signed x only_with_valid_cert x validate_certificate x only_use_keys_in_metadata x 7 metadata key layouts, 17 mutation operators on signed requests and 33 wrapping variants under both duplicate-ID policies, genuinely signed requests whose Extensions carry the request's ID (or a near miss) on an element of another name, destination variants incl. near misses over 8 endpoint layouts, IssueInstant around both edges for 4 allowances, versions, schema-invalid requests, wrong roots, truncated/garbled encodings and SOAP shapes, seeded random combinations), compared at handed-over/refused granularity; oracle keys of requests with optional content name the kind and the attributes.",
-    "note": "Trusted: Coq kernel + vm_compute; the hand-written model is tied to the code by testing (the correspondence above), not proof; signatures are symbolic (a signature node records key, intactness and the digested content) and every statement about verification is relative to the stand-in tool's node-selection semantics (real xmlsec1 is absent); valid_instance (C13), certificate-chain validation (cert.py) and the transport decoders (C14) enter the model as classified inputs computed by the harness itself. Three defects found by this check were repaired in /repo (known_findings.json 'fixed'): F16 (0b54cc6b), the aa option section (dace676c) and request wrapping (5 oracle keys wrapped-request-handed-over:*, repaired with C01's pre-check f6d4380b); the oracle keys stay in the harness and report them again if they return. Only tested, not proved: agreement of model and code; the IssueInstant edges exactly at now-86400-slack and now+86400+slack are run but not compared; a Redirect-binding query-string signature is never seen by _parse_request (the application must call verify_redirect_signature, property C15); an IdP serving attribute queries through the aa/aq/pdp endpoint fallback reads the want options of its idp section only (not generated).",
+    "text": "Coq theorems (Props/C10.v, 28, all closed) over an executable model of Entity._parse_request (receiver addresses per service/binding/context with the aa/aq/pdp fallback and the odd-endpoint-spec branch of Config.endpoint, accepted_time_diff, the section the want_* options are read from, must = want_authn_requests_signed or want_authn_requests_only_with_valid_cert), Entity.unravel per binding incl. the SOAP envelope reader, Request._loads (every non-TypeError exception of the signature check ends in IncorrectlySigned; valid_instance), SecurityContext.correctly_signed_message (root element test, unsigned-and-must, signed -> _check_signature: certificate selection of C03, per-certificate tool runs with the symbolic tool semantics of Model/Xmlsec.v, certificate validation) and Request._verify (Version, Destination, IssueInstant window). PROVED for every configuration, request kind, binding and received text, and for both states of the C01 pre-check (C10_handed_over_only_if_valid): a request is handed to the application only if the text is a clean encoding of it, its root element is the expected request type of that entry point, valid_instance passed, Version is 2.0, Destination is absent/empty or one of the receiver's own addresses for that service and binding (or the receiver has none), IssueInstant lies in [now-86400-slack, now+86400+slack), a signature child on the root verified (tool semantics, either duplicate-ID policy) under a candidate certificate of the issuer that also passed certificate validation - with only_use_keys_in_metadata (the default) a certificate the metadata holds for the issuer with use signing - and want_authn_requests_signed / only_with_valid_cert imply a signature is present; C10_own_options_honoured restates the last clause for the options CONFIGURED in the section of the entity's own type (idp or aa). These are theorems about the model of the library as repaired by three fix: commits in /repo: 0b54cc6b (F16: _check_signature insists on a verified signature whatever only_valid_cert says; C10_before_fix_refuted keeps the witness, C10_repair_keeps_the_rest shows nothing else changes) and dace676c (an attribute authority's own want_* options are read; C10_options_before_fix_refuted keeps the witness), and f6d4380b (the C01 enveloping pre-check; Model/Request.v PRECHECK_IN_FORCE = true, C10_code_state). PROVED for today's code state, WITH the enveloping pre-check of the C01 repair (pre = true): the verified signature is the root's only Signature child, refers to the root's ID and digests exactly the root without it (C10_signature_covers_request), hence every modification of a signed request is refused when the sender's keys signed nothing else (C10_tamper). For the library before f6d4380b (no pre-check) that half is REFUTED by a wrapping witness (C10_covers_refuted_without_precheck) and proved under the hypothesis that the pre-check predicate holds of the received document (C10_covers_partial, C10_tamper_partial). C10_table_is_documented: the entry-point table (method -> request class, msgtype, service, root tag accepted by <msgtype>_from_string, SOAP reader and its root tag, pass-through of the text and must), regenerated from the code by recording on every run, equals the table the model uses. The recorded table also says which of _loads / loads / _verify / verify / issue_instant_ok each request class resolves to a definition other than Request's own (none): there is ONE pipeline for all eight kinds. NO KIND-SPECIFIC EXCEPTION, proved over the kind parameter: the model's request document carries the kind-specific optional content of the root (d_opts: LogoutRequest NotOnOrAfter / Reason / SessionIndex, AuthnRequest Conditions / Subject / ForceAuthn / IsPassive / Scoping, the optional children of the queries and of ManageNameID / NameIDMapping requests, each dateTime with its value) and C10_blind_to_optional_content shows that for every kind, binding, configuration and text the outcome is unchanged when that content is replaced by any other; C10_no_kind_specific_exception is the refusal form of the full statement (stale / dated ahead / no instant, addressed elsewhere, unsigned-but-wanted, other version, schema-invalid, other root => handed over by no entry point, whatever it carries) and C10_future_not_on_or_after_does_not_excuse its instance for a NotOnOrAfter (or any other dateTime) ahead of now. LONG-LIVED RECEIVER, by induction over message sequences (C10_history, C10_history_handed_over_only_if_valid): whatever one receiver has handed over at any point of a sequence was handed over by _parse_request on that message alone, and ops1 ++ ops2 hands over what ops1 and ops2 do apart - earlier valid requests excuse nothing later. SCHEMA VALIDITY IS THE C13 JUDGEMENT, REQUIRED ATTRIBUTES PRESENT BUT EMPTY (Model/RequestValid.v, Props/C10.v (9)): the received document comes with the instance tree that <msgtype>_from_string makes of it (an attribute written X=\"\" is the member holding the empty value) and its validity is COMPUTED by the C13 model of validate.valid_instance (Model/Validate.v) over the schema tables regenerated from the working tree on this run (Gen/SchemaTables.v); C10_handed_over_only_if_valid_instance: handed over => valid_instance accepted that tree; C10_empty_required_attribute_refused: if the root or ANY node reachable below it through declared child members, at any depth, has a required attribute MISSING OR EMPTY, the request is handed over by no entry point, over no binding, under no configuration, signed or not, for every primitive-validator function (through C13_rejects on the actual tables); C10_empty_is_judged_as_absent: X=\"\" gets exactly the verdict and the _parse_request outcome of X absent; C10_history_only_valid_instances: the same for everything one long-lived receiver ever hands over; C10_empty_required_witness: on instance trees regenerated on this run (Gen/RequestInst.v) an enriched AuthnRequest is handed over, the same with ID=\"\", with Scoping/IDPList/IDPEntry ProviderID=\"\" and with ProviderID absent is refused NotValid. C10_undecodable_refused, C10_wrong_root_refused, C10_witness, C10_logout_witness (non-vacuity). Tie to the code: on every run the real entry points (8 parse_* methods on IdP / AA / SP entities plus Saml2Client.handle_logout_request) and the model are run on the same ~18 300 cases (every request kind WITH each optional attribute / child of that kind alone and combined - 58 option sets incl. NotOnOrAfter 1 s / 1 h / 2 d / 10 y ahead, now and past, Conditions windows open / wide / past / future / one-sided, SubjectConfirmationData windows - x Redirect / POST / SOAP x IssueInstant at +-(86400+allowance) -2..+2 s x Destination swapped with another own endpoint / foreign / near miss x Version x dropped ID x want / only_valid_cert with unsigned, signed, signed-and-stale, signed-and-misaddressed, wrong key, edited, stripped, on IdP, stand-alone AA, SP and through handle_logout_request, the valid request first and again last on each long-lived receiver; shuffled valid / refusable sequences with re-sent texts on one object per kind and binding; and: all 8 request kinds, Redirect/POST/SOAP and the odd bindings, signed/unsigned/wrong key x want_authn_requests_signed x only_with_valid_cert x validate_certificate x only_use_keys_in_metadata x 7 metadata key layouts, 17 mutation operators on signed requests and 33 wrapping variants under both duplicate-ID policies, genuinely signed requests whose Extensions carry the request's ID (or a near miss) on an element of another name, destination variants incl. near misses over 8 endpoint layouts, IssueInstant around both edges for 4 allowances, versions, schema-invalid requests, wrong roots, truncated/garbled encodings and SOAP shapes, seeded random combinations; and EVERY REQUIRED ATTRIBUTE reachable from each request kind - 131 sites walked over the reflected schema tables to depth 6, from root ID / Version / IssueInstant / Resource down to Scoping/IDPList/IDPEntry ProviderID, Subject/SubjectConfirmation Method, Attribute Name, Action Namespace, Evidence/Assertion and its statements, EncryptedID/.../EncryptionMethod Algorithm and CipherReference URI, each also written down by hand from the schemas - as good value / X=\"\" / X absent on the same enriched request, unsigned and genuinely signed with the attribute already empty, over Redirect / POST / SOAP, on IdP, AA, SP and through handle_logout_request, ~1 500 cases that ALSO run through the second correspondence unit parse_request_judged where validity is computed by the C13 model from the instance tree of the text), compared at handed-over/refused granularity; oracle keys of requests with optional content name the kind and the attributes.",
+    "note": "Trusted: Coq kernel + vm_compute; the hand-written model is tied to the code by testing (the correspondence above), not proof; signatures are symbolic (a signature node records key, intactness and the digested content) and every statement about verification is relative to the stand-in tool's node-selection semantics (real xmlsec1 is absent); certificate-chain validation (cert.py) and the transport decoders (C14) enter the model as classified inputs computed by the harness itself; so does valid_instance (C13) for every family but empty-required / schema-invalid, where it is the C13 model run on the instance tree of the text - that tree is read with the library's own parser (C12) and, in the model, is an input independent of the symbolic twin (the harness derives both from the same text); the primitive validators the C13 model does not contain (dateTime, anyURI, base64Binary) are taken as accepting: the judged families hold only well-formed values of those types. Three defects found by this check were repaired in /repo (known_findings.json 'fixed'): F16 (0b54cc6b), the aa option section (dace676c) and request wrapping (5 oracle keys wrapped-request-handed-over:*, repaired with C01's pre-check f6d4380b); the oracle keys stay in the harness and report them again if they return. Only tested, not proved: agreement of model and code; the IssueInstant edges exactly at now-86400-slack and now+86400+slack are run but not compared; a Redirect-binding query-string signature is never seen by _parse_request (the application must call verify_redirect_signature, property C15); an IdP serving attribute queries through the aa/aq/pdp endpoint fallback reads the want options of its idp section only (not generated).",
     "technique": "machine-checked proof (Coq) + regenerated-table obligation + model/implementation correspondence + implementation-level oracle",
 }
 TRUSTED = [
     "modelled by hand (Model/Request.v): Entity._parse_request, Entity.unravel, soap.parse_soap_enveloped_saml_thingy, Request._loads/_verify/verify/issue_instant_ok, SecurityContext.correctly_signed_message and _check_signature over Model/CertSelect.v (certificate selection) and Model/Xmlsec.v (symbolic signed documents, tool node selection), Config.endpoint",
     "Gen/RequestTable.v is regenerated by RECORDING the code (harness/translate_c10.py): each entry point is called on a stub that records what it hands to _parse_request, each Request subclass's signature_check on a recording SecurityContext, the real correctly_signed_message and SOAP readers on 28 candidate roots",
     "the stand-in xmlsec1 (harness/tools/xmlsec_core.py) signs and verifies; its node-selection semantics = Model/Xmlsec.v tool_verify (duplicate-ID policies fail / first-wins both run); symbolic cryptography in the model",
+    "Model/RequestValid.v: d_valid := Model/Validate.v valid_instance (C13, modelled by hand, tied by C13's own correspondence) on the instance tree; Gen/SchemaTables.v and Gen/RequestInst.v are regenerated on every C10 run (harness/c10_empty.py, translate_schema.py); which attributes are REQUIRED is also written down by hand (c10_empty.DOCUMENTED) and compared with the reflected tables",
     "oracle inputs computed by the harness itself, not by the code under test: the symbolic twin of each document (who signed which content), Version / Destination / IssueInstant / Issuer read from the XML, schema validity by construction of the mutation, decoder class of each text by Python's base64/zlib/ElementTree, certificates accepted by certificate validation (OpenSSLWrapper.verify, not modelled; in this environment it accepts none)",
 ]
 ASSUMPTIONS = [
@@ -39,6 +40,7 @@ ASSUMPTIONS = [
     "the want options are those of the section of the entity's own type (idp / aa); options placed in the aa/aq/pdp sections of an entity of type idp are not generated",
     "IssueInstant exactly at an edge of the window is left unspecified by the property (code: lower edge inside, upper edge outside); generated, run, not compared",
     "the kind-specific optional content (d_opts) of a request is the harness's own reading of the XML; the model never reads it, so its encoding only matters to the statements C10_blind_to_optional_content / C10_future_not_on_or_after_does_not_excuse",
+    "required attributes of the request's own ds:Signature / KeyInfo subtree and of Advice are not generated empty (what the tool is handed: C20 / C01); a whitespace-only value of a required attribute is left unspecified (the code accepts it for string types)",
     "one long-lived receiver = the cached Server / Saml2Client object of a configuration spec, reused for every case of that configuration in generation order; the model is stateless (C10_history)",
 ]
 RULE = ("a case is non-trivial when something of the property's quantifier is at stake: a signature is present or wanted, the Destination is set, "
@@ -49,14 +51,20 @@ EXACT = bool(os.environ.get("C10_EXACT"))   # diagnosis: compare exception class
 MODEL_COARSE = "fun c : rcfg * kind * binding * wire => match c with (cf, k, b, w) => show_coarse (parse_request_now cf k b w) end"
 MODEL_EXACT = "fun c : rcfg * kind * binding * wire => match c with (cf, k, b, w) => show_exact (parse_request_now cf k b w) end"
 CTYPE = "(rcfg * kind * binding * wire)"
+# the same pipeline with d_valid COMPUTED by the C13 model of valid_instance from the instance tree of the text (Model/RequestValid.v)
+MODEL_V = ("fun c : rcfg * kind * binding * wire * inst => match c with (cf, k, b, w, i) => %s (parse_request_v_now (prim_of []) cf k b w i) end"
+           % ("show_exact" if EXACT else "show_coarse"))
+CTYPE_V = "(rcfg * kind * binding * wire * inst)"
+JUDGED_FAMILIES = ("empty-required", "schema-invalid")
 
 
 
-def IMPORTS():
+def IMPORTS(judged=False):
     """the modules the case files need, followed by the layout definitions shared by all cases of a file (they ride in
     core.run_model's import line: it is closed by the full stop core appends after the last definition)"""
-    return ("Model.Sigver Model.CertSelect Model.Xmlsec Model.Request.\nOpen Scope N_scope.\n" + g.layout_defs() +
-            "\nDefinition c10_defs_end := tt")
+    return ("Model.Sigver Model.CertSelect Model.Xmlsec Model.Request" +
+            (" Model.Schema Model.Validate Gen.SchemaTables Model.RequestValid" if judged else "") +
+            ".\nOpen Scope N_scope.\n" + g.layout_defs() + "\nDefinition c10_defs_end := tt")
 
 
 WRAP_KEY = "wrapped-request-handed-over:%s"
@@ -83,6 +91,9 @@ def call_exact(f, *a):
 def regen(ctx):
     changed, rows = translate_c10.regen_request_table()
     ctx.extra["request_table"] = [list(r) for r in rows]
+    # Gen/SchemaTables.v (the tables valid_instance is judged over) and Gen/RequestInst.v (witness instance trees)
+    import c10_empty
+    c10_empty.regen_insts()
 
 
 # ---------------------------------------------------------------------------
@@ -92,6 +103,7 @@ class Cases(object):
     def __init__(self, ctx):
         self.ctx = ctx
         self.cases = []
+        self.vcases = []
         self.seen = set()
         self.valid_certs = {}
 
@@ -122,9 +134,13 @@ class Cases(object):
             wire = "(WText (Xml %s))" % term
         text = g.encode(xml, bname, soap_env)
         facts = dict(doc=f, meta=meta, signer=signer, r=r)
-        self.add(fam, cs, kind, bname, text, wire, facts, note, via, tag)
+        inst = None
+        if fam in JUDGED_FAMILIES:
+            import c10_empty
+            inst = c10_empty.inst_of_xml(kind, xml)
+        self.add(fam, cs, kind, bname, text, wire, facts, note, via, tag, inst=inst)
 
-    def add(self, fam, cs, kind, bname, text, wire, facts, note=None, via=None, tag=None):
+    def add(self, fam, cs, kind, bname, text, wire, facts, note=None, via=None, tag=None, inst=None):
         """tag: position in a history - the same text sent AGAIN to the same long-lived receiver is a case of its own"""
         ctx = self.ctx
         ident = (repr(sorted(cs.items())), kind, bname, text, via, tag)
@@ -180,6 +196,9 @@ class Cases(object):
             ctx.count("uncompared:exact-mode-has-no-class-for-" + via)
         else:
             self.cases.append(dict(id=len(self.cases), coq=coq, impl=impl, show=show, replay=replay))
+            if inst is not None:
+                self.vcases.append(dict(id=len(self.vcases), coq=coq[:-1] + ", %s)" % inst, impl=impl, show=show, replay=replay))
+                ctx.count("judged-by-the-C13-model:" + fam)
         self.oracle(cs, kind, bname, accepted, got, facts, replay, show)
         if len(self.cases) % 400 == 1:
             ctx.sample(dict(case=show, outcome="handed over" if accepted else got))
@@ -265,6 +284,7 @@ class Cases(object):
     def correspond(self):
         ctx = self.ctx
         out = ctx.correspond("parse_request", IMPORTS(), MODEL_EXACT if EXACT else MODEL_COARSE, CTYPE, self.cases, shard=200)
+        out += ctx.correspond("parse_request_judged", IMPORTS(judged=True), MODEL_V, CTYPE_V, self.vcases, shard=200)
         if os.environ.get("C10_DUMP"):
             with open(ctx.work + "/disagreements.json", "w") as fh:
                 json.dump([dict(case=d.case["show"], impl=repr(d.impl), model=d.model) for d in out], fh, indent=1, default=repr)
@@ -630,6 +650,80 @@ def fam_encodings(C, quick):
     C.add_doc("encoding", cs, "authz", "soap", g.request_xml(r), _named(dict(valid=True, modified=False, wrap=None), "none"), r)
 
 
+def _site_quick_bindings(s, n, kind):
+    """quick tier: every site over every binding when it is shallow (root, one or two levels down); the deep xml-enc /
+    evidence sites rotate over the bindings"""
+    bs = [b for b in MAIN_B if not (kind == "authz" and b == "soap")]
+    if s["depth"] <= 2:
+        return bs
+    return [bs[n % len(bs)]]
+
+
+def fam_empty_required(C, quick):
+    """REQUIRED ATTRIBUTES PRESENT BUT EMPTY.  Every required attribute reachable from each request kind (c10_empty.sites:
+    walked over the reflected schema tables, root ID / Version / IssueInstant / Resource down to Scoping/IDPList/IDPEntry
+    ProviderID, Subject/SubjectConfirmation Method, Attribute Name, Action Namespace, Evidence/Assertion..., EncryptedID
+    .../EncryptionMethod Algorithm, CipherReference URI) in three variants on the SAME enriched request: good value
+    (control, must be handed over), X="" and X absent (both must be refused) - unsigned, and genuinely SIGNED with the
+    attribute already empty towards a receiver that wants signatures (the signature verifies: only valid_instance stands
+    between the request and the application).  Order on each long-lived receiver: control, empty, absent, control again."""
+    import c10_empty as E
+    n = 0
+
+    def one(cs, kind, bname, i, s, sign, via=None):
+        issuer = SENDER[cs["etype"]]
+        own = [u for u in g.own_endpoints(cs, KINDS[kind]["service"], bname) if u]
+        for variant, tag in (("base", "first"), ("empty", None), ("absent", None), ("base", "again")):
+            r = dict(rspec(kind=kind, issuer=issuer, destination=own[0] if own else None), site=[i, variant])
+            try:
+                x = g.request_xml(r, sign=sign)
+            except Exception as e:
+                C.ctx.count("empty-required:not-buildable:%s:%s:%s" % (variant, "signed" if sign else "unsigned", type(e).__name__))
+                continue
+            if variant == "empty" and ('%s=""' % E_XML[s["attr"]]) not in x:
+                raise AssertionError("the generator lost the empty attribute: %s" % s["label"])
+            name = "none" if variant == "base" else "required-%s:%s:%s" % (variant, kind, s["label"])
+            C.add_doc("empty-required", cs, kind, bname, x, _named(dict(valid=variant == "base", modified=False, wrap=None), name),
+                      r, signer=sign, via=via, tag=tag, note="%s %s" % (variant, s["label"]))
+            C.ctx.count("empty-required:%s:depth-%d:%s" % (variant, s["depth"], "signed" if sign else "unsigned"))
+
+    for kind in KIND_ORDER:
+        for i, s in enumerate(E.sites(kind)):
+            n += 1
+            if not s["table_required"]:
+                C.ctx.oracle_fail("required-attribute-table:%s.%s" % (s["cls"], s["attr"]),
+                                  "the schema table of the working tree no longer marks %s.%s as required (SAML 2.0 / XML-Enc schema: use=required)"
+                                  % (s["cls"], s["attr"]), dict(cls=s["cls"], attr=s["attr"]))
+            if not s["documented"]:
+                C.ctx.count("empty-required:required-in-the-table-only:%s.%s" % (s["cls"], s["attr"]))
+            for bname in (_site_quick_bindings(s, n, kind) if quick else [b for b in MAIN_B if not (kind == "authz" and b == "soap")]):
+                one(cfgspec(), kind, bname, i, s, None)
+                one(cfgspec(want=True), kind, bname, i, s, "sp")
+                if not quick:
+                    one(cfgspec(ovc=True), kind, bname, i, s, "sp")
+                    one(cfgspec(want=True), kind, bname, i, s, None)
+    # a stand-alone attribute authority, an SP (LogoutRequest / ManageNameIDRequest of the IdP), and the library's own consumer
+    for etype, eps, kinds in [("aa", "aa-only", ["attrq", "authnq", "logout"]), ("sp", "sp-full", ["logout", "mni"])]:
+        for kind in kinds:
+            for i, s in enumerate(E.sites(kind)):
+                if quick and s["depth"] > 2:
+                    continue
+                for bname in ["soap", "post"]:
+                    one(cfgspec(etype=etype, eps=eps), kind, bname, i, s, None)
+                    one(cfgspec(etype=etype, eps=eps, want=True if etype == "aa" else None), kind, bname, i, s, SENDER_KEY[etype])
+    for i, s in enumerate(E.sites("logout")):
+        if quick and s["depth"] > 2:
+            continue
+        for bname in ["soap", "post"]:
+            one(cfgspec(etype="sp", eps="sp-full"), "logout", bname, i, s, None, via="handle_logout_request")
+            one(cfgspec(etype="sp", eps="sp-full"), "logout", bname, i, s, "idp", via="handle_logout_request")
+
+
+E_XML = {"id": "ID", "version": "Version", "issue_instant": "IssueInstant", "provider_id": "ProviderID", "method": "Method", "name": "Name",
+         "namespace": "Namespace", "resource": "Resource", "decision": "Decision", "algorithm": "Algorithm", "uri": "URI",
+         "authn_instant": "AuthnInstant"}
+
+
 PLAIN = dict(valid=True, modified=False, wrap=None, name="none")
 _SLACKS = [None, 0, 60, 300]
 
@@ -827,6 +921,7 @@ def run(ctx):
         fam_wrong_root(C, ctx.quick)
         fam_encodings(C, ctx.quick)
         fam_optional(C, ctx.quick)
+        fam_empty_required(C, ctx.quick)
         fam_history(C, ctx.quick, ctx.rng)
         fam_random(C, ctx.quick, ctx.rng)
     ctx.exhaustive = False
